@@ -1,7 +1,7 @@
 """Single source for MANIFEST.json (bin/mkmanifest)."""
 
 HOOK_COMMITS = ["673019b", "625d9ba"]
-FIX_COMMITS = ["12c9092", "3e9b6da"]   # filled by bin/mkmanifest callers: /repo commits that add guarded hooks
+FIX_COMMITS = ["12c9092", "3e9b6da", "a55c868"]   # filled by bin/mkmanifest callers: /repo commits that add guarded hooks
 
 NOTES = ("All checks: bin/check <id>. Exit 0 = held, 1 = VIOLATION line + replay file, 2 = tool error (never a verdict). "
          "Specs under spec/<family>/, harness under harness/ (path deps on /repo; rebuilt by every check). "
@@ -50,6 +50,18 @@ CHECKS["C09"] = dict(engine="tlc+vh", level="model_checking", ref="4.4", techniq
 CHECKS["C10"] = dict(engine="tlc+vh", level="model_checking", ref="4.4", technique="TLA+ spec (Expr.tla: Fold/FoldSound) enumerated by TLC; every case folded by optimize::fold_program and evaluated before/after, plus parse()->Engine end to end; error-delta against the faithful transcription",
                      text="Every expression of the bound is evaluated unfolded and folded by the real code; differences must be exactly those the transcribed folder predicts (recorded finding), anything else is a violation.",
                      note=EXPR_NOTE)
+
+CHECKS["C11"] = dict(engine="tlc+vh", level="exploration", ref="4.4", technique="TLA+ spec (ExprTot.tla) enumerates with TLC every operator/built-in over every tuple of boundary values; each case executed by the real evaluator and Engine under catch_unwind",
+                     text="The decisive observation (no panic) is made on the implementation; the specification defines the input space exhaustively (operators x boundary-value tuples) and flags the cases whose exact arithmetic leaves i64, so reaching them is measured.",
+                     note="Trusted: harness catch_unwind; dev profile with overflow checks. Bounded: depth-1 expressions over 31 boundary leaves (third arguments from 10 leaves); range() with huge sizes excluded as the property says.")
+ZDD_NOTE = ("Trusted: TLC, hook H7 (node dump). Bounded: families over 3 variables: all 65 536 pairs model-checked, every pair (thorough) or a seed-dependent third (quick) replayed; "
+            "register-machine histories of <= 10 operations on 3 registers.")
+CHECKS["C06"] = dict(engine="tlc+vh", level="model_checking", ref="4.3", technique="TLA+ spec (Zdd.tla): TLC checks the transcribed arena algorithms against explicit set-family algebra on all pairs; pairs and register-machine behaviours replayed into ZddArena and Zdd",
+                     text="Exhaustive at 3 variables for the algorithm transcription; every replayed result (iter, count, cached count, contains) of both ZDD forms must equal the reference family, also after gc.",
+                     note=ZDD_NOTE)
+CHECKS["C07"] = dict(engine="tlc+vh", level="model_checking", ref="4.3", technique="TLA+ spec (Zdd.tla register machine) behaviours generated by TLC and replayed on one real arena; canonicity, reducedness/ordering (hook H7), gc and iteration checked after every step",
+                     text="For every generated history the real arena must give equal roots exactly for equal families, keep every node reduced and ordered, preserve live families across gc and iterate each set once in ascending order.",
+                     note=ZDD_NOTE)
 
 NOT_APPLICABLE = {
     "C41": "parser totality over arbitrary strings: no state/transition system to specify; a TLA+ model would only enumerate token strings (fuzzing under another name)",
